@@ -501,7 +501,17 @@ class LintScript(ModelFn):
                    5: entry(['fn_labels_defined', 'fn_labels_used'])}
         body_checks = {n: label_step_spec(n) for n in (3, 5, 6, 7, 8, 9)}
         step1 = label_step_spec(1)
-        body_checks[1] = lambda L, events: scan_maps_empty(L.ctx, events) + step1(L, events)
+
+        def every_definition_linted(L, events):
+            # every function statement of the script — also a second definition of a name, which is the one in effect at
+            # run time — has its body walked: the argument, statement and label-reporting loops of the function arm all ran
+            # to completion in this iteration of the global statement loop
+            st = L.term(LABEL_LOOPS[1][0])
+            done = {e['loop'] for e in events if e.get('kind') == 'loop-done'}
+            need = [f'{self.qual}.loop{n}' for n in (2, 3, 5, 6, 7)]
+            return [('C18.every-function-definition-is-linted',
+                     z3.Implies(mhas(st, 'function'), z3.BoolVal(all(t in done for t in need))))]
+        body_checks[1] = lambda L, events: scan_maps_empty(L.ctx, events) + step1(L, events) + every_definition_linted(L, events)
         return {(self.qual, n): LoopSpec(frame_inv, heap='havoc', lemmas=lint_lemmas(n), mk_heap=masked_fresh,
                                          trusted_invariant=True, entry_check=entries.get(n),
                                          body_check=body_checks.get(n))
@@ -514,7 +524,8 @@ with open(_os.path.join(_os.path.dirname(_os.path.dirname(_os.path.abspath(__fil
     LINT_SCOPE_WITNESS = _fh.read()
 LintScript.native_witness = {'is-empty-at-the-head-of-its-scope': LINT_SCOPE_WITNESS, 'C18.defined-labels-grow': LINT_SCOPE_WITNESS,
                              'C18.used-labels-grow': LINT_SCOPE_WITNESS, 'C18.warns-exactly-for-a-name-missing': LINT_SCOPE_WITNESS,
-                             'C18.a-label-statement-warns-iff': LINT_SCOPE_WITNESS}
+                             'C18.a-label-statement-warns-iff': LINT_SCOPE_WITNESS,
+                             'C18.every-function-definition-is-linted': LINT_SCOPE_WITNESS}
 GetExprUses.native_witness = {'C18.every-name-the-expression-reads-is-recorded': LINT_SCOPE_WITNESS,
                               'names-read-by-the-arguments-so-far-are-recorded': LINT_SCOPE_WITNESS}
 GetAssignsUses.native_witness = {'C18.every-name-a-statement-reads-is-recorded': LINT_SCOPE_WITNESS,
